@@ -23,9 +23,21 @@ KNOWN_COMPILERS = ["gcc", "g++", "clang", "clang++", "/usr/bin/gcc", "/opt/llvm/
 UNKNOWN_COMPILERS = ["mycc", "cc", "xlc", "/opt/arm/bin/armclang", "gcc-12"]
 UNKNOWN_FLAGS = ["-Wall", "-Wextra", "-std=c99", "-march=native", "-fPIC", "--weird", "-pthread", "-MD", "-frob=3"]
 SILENT_DIRECTIVES = ("line", "warning", "error")
+# multi-pass compilers (written from the compiler definitions' meaning, cf. C12): (command prefix, device macro,
+# [(pass, macros the pass defines after the command's own -D)]).  Every pass is a preprocessing run of its own.
+MULTIPASS = [
+    (["nvcc"], "__CUDA_ARCH__", [("default", ["__NVCC__", "__CUDACC__"]), ("sm_70", ["__NVCC__", "__CUDACC__", "__CUDA_ARCH__=700"])]),
+    (["nvcc", "-gencode", "arch=compute_80,code=sm_80"], "__CUDA_ARCH__",
+     [("default", ["__NVCC__", "__CUDACC__"]), ("sm_80", ["__NVCC__", "__CUDACC__", "__CUDA_ARCH__=800"])]),
+    (["nvcc", "--gpu-architecture=sm_75", "-gencode", "arch=compute_90,code=sm_90"], "__CUDA_ARCH__",
+     [("default", ["__NVCC__", "__CUDACC__"]), ("sm_75", ["__NVCC__", "__CUDACC__", "__CUDA_ARCH__=750"]),
+      ("sm_90", ["__NVCC__", "__CUDACC__", "__CUDA_ARCH__=900"])]),
+    (["icpx", "-fsycl"], "__SYCL_DEVICE_ONLY__",
+     [("default", ["SYCL_LANGUAGE_VERSION"]), ("sycl-spir64", ["__SYCL_DEVICE_ONLY__", "__SPIR__", "__SPIRV__", "SYCL_LANGUAGE_VERSION"])]),
+]
 
 
-def gen(rng, root, dangling=True, unknown=True, db_events=True, nplat=None, write=True):
+def gen(rng, root, dangling=True, unknown=True, db_events=True, nplat=None, write=True, multipass=True):
     nplat = nplat if nplat is not None else rng.randint(1, 3)
     desc = CB.gen_codebase(rng, root, nplat=nplat, dangling=dangling, unknown=unknown, write=False)
     desc["dbmeta"] = {}
@@ -33,8 +45,21 @@ def gen(rng, root, dangling=True, unknown=True, db_events=True, nplat=None, writ
         meta = []
         for e in entries:
             m = {"missing": False, "compiler": "gcc", "known": True, "unrecognised": []}
+            mp = multipass and rng.random() < 0.2
+            if mp:
+                # a multi-pass compiler: the file is preprocessed once per pass, each pass with its own macros
+                prefix, devmacro, passes = rng.choice(MULTIPASS)
+                e["arguments"][0:1] = list(prefix)
+                m["compiler"], m["passes"] = prefix[0], [list(d) for _, d in passes]
+                key = next((k for k in desc["texts"] if posixpath.normpath(k) == posixpath.normpath(e["file"])), None)
+                if dangling and key is not None and not any("gone_pass" in l for l in desc["texts"][key]):
+                    # an include only the device passes reach, one only the host pass reaches, one every pass reaches
+                    desc["texts"][key] = list(desc["texts"][key]) + [
+                        f"#ifdef {devmacro}", '#include "dev/gone_dev.h"', "#else", "#include <sys/gone_host.h>", "#endif", '#include "gone_pass.h"']
             if db_events:
-                if rng.random() < 0.25:
+                if mp:
+                    pass
+                elif rng.random() < 0.25:
                     c = rng.choice(UNKNOWN_COMPILERS)
                     m["compiler"], m["known"] = os.path.basename(c), False
                     e["arguments"][0] = c
@@ -56,7 +81,7 @@ def gen(rng, root, dangling=True, unknown=True, db_events=True, nplat=None, writ
                     fl = rng.sample(UNKNOWN_FLAGS, rng.randint(1, 3))
                     for f in fl:
                         a = e["arguments"]
-                        ok = [i for i in range(1, len(a) - 1) if a[i - 1] not in ("-I", "-D", "-include", "-isystem")]
+                        ok = [i for i in range(1, len(a) - 1) if a[i - 1] not in ("-I", "-D", "-include", "-isystem", "-gencode")]
                         a.insert(rng.choice(ok), f)
                     m["unrecognised"] = [a for a in e["arguments"] if a in UNKNOWN_FLAGS]
             meta.append(m)
@@ -112,9 +137,10 @@ def as_inctree(desc):
             if m["missing"]:
                 continue
             dirs, defs = _flags_of(e["arguments"])
-            entries.append({"file": posixpath.normpath(e["file"]), "directory": ".", "flags": [["I", posixpath.normpath(d)] for d in dirs],
-                            "defines": defs, "forced": forced_of(e["arguments"])})
-            owner.append(pname)
+            for pdefs in m.get("passes") or [[]]:
+                entries.append({"file": posixpath.normpath(e["file"]), "directory": ".", "flags": [["I", posixpath.normpath(d)] for d in dirs],
+                                "defines": defs + list(pdefs), "forced": forced_of(e["arguments"])})
+                owner.append(pname)
     files = {posixpath.normpath(p): b for p, b in desc["texts"].items()}
     return {"files": files, "links": [], "entries": entries}, owner
 
@@ -172,16 +198,58 @@ PATTERNS = [
 ]
 
 
+def use_templates(tmpl):
+    """rebuild PATTERNS from the message templates regenerated out of the code (driver op `warntemplates`), so that an
+    edit of a message text that keeps naming the event is not mistaken for a lost warning"""
+    global PATTERNS
+    pats = []
+    try:
+        ph = tmpl["phrases"]
+        for kind in ("include", "directive", "missing", "compiler", "args", "nofiles"):
+            rx, seen = "^", set()
+            pieces = tmpl[kind]
+            for i, pc in enumerate(pieces):
+                last = i == len(pieces) - 1
+                if pc[0] == "lit":
+                    rx += re.escape(pc[1])
+                    continue
+                a, w = pc[1], pc[2]
+                if a == "file":
+                    rx += "(?P<file>.*?)"
+                elif a == "line":
+                    rx += r"(?P<line>\d+)" if "line" not in seen else r"\s*(?P<l2>\d+)"
+                elif a == "col":
+                    rx += r"(?P<col>\d+)"
+                elif a == "kind":
+                    rx += "(?P<form>" + "|".join(re.escape(ph[k]) for k in ("user", "system")) + ")"
+                elif a == "name":
+                    rx += "(?P<name>.*)" if last else "(?P<name>.*?)"
+                elif a == "spelling":
+                    rx += "(?P<sp>.*)"
+                elif a == "spellingList":
+                    rx += r"\[(?P<sp>.*)\]"
+                else:
+                    return False
+                seen.add(a)
+            pats.append((kind, re.compile(rx + "$", re.S), {ph["user"]: "user", ph["system"]: "system"}))
+    except (KeyError, TypeError, IndexError, re.error):
+        return False
+    PATTERNS = pats
+    return True
+
+
 def classify_message(msg):
     """log message -> event key (as in `expected`) + details, or None for a message of no known kind"""
-    for kind, pat in PATTERNS:
+    for ent in PATTERNS:
+        kind, pat = ent[0], ent[1]
         m = pat.match(msg)
         if not m:
             continue
         g = m.groupdict()
         if kind == "include":
-            quote = g["sp"].split("include", 1)[-1].strip()[:1]
-            return (g["form"], g["file"], int(g["line"]), g["name"]), {"line2": int(g["l2"]), "spelling": g["sp"], "delim": quote}
+            quote = (g.get("sp") or "").split("include", 1)[-1].strip()[:1]
+            form = ent[2].get(g["form"], g["form"]) if len(ent) > 2 else g["form"]
+            return (form, g["file"], int(g["line"]), g["name"]), {"line2": int(g.get("l2") or g["line"]), "spelling": g.get("sp") or "", "delim": quote}
         if kind == "directive":
             sp = g["sp"][1:-1] if len(g["sp"]) >= 2 else g["sp"]
             mm = re.match(r"\s*#\s*(\S+)", sp)
